@@ -1066,6 +1066,8 @@ structure RegFields (t1 : TM) (r : Rule) (t4 : TM) : Prop where
       t1.usingC.getD x [] ++ (r.children.zipIdx.filter (fun ci => ci.1 == x && (t1.val ci.1 != none))).map (fun ci => (t1.rules.size, ci.2))
     else t1.usingC.getD x []
   qh : ∀ x, (x ∈ t4.queue ∨ x ∈ t4.holding) → (x ∈ t1.queue ∨ x ∈ t1.holding ∨ x = t1.rules.size)
+  keepq : ∀ x, (x ∈ t1.queue ∨ x ∈ t1.holding) → (x ∈ t4.queue ∨ x ∈ t4.holding)
+  newq : t1.val r.parent ≠ none → t1.rules.size ∈ t4.queue
 
 theorem register_fields (t1 : TM) (r : Rule) :
     RegFields t1 r (register (gapGrow (pushRule t1 r) r) r) := by
@@ -1084,13 +1086,15 @@ theorem register_fields (t1 : TM) (r : Rule) :
   cases hv : t3.val r.parent with
   | none =>
     have hv1 : t1.val r.parent = none := by rw [← hval]; exact hv
-    refine ⟨g3', g2', g1', by rw [g5'], by rw [g4'], ?_, ?_, ?_⟩
+    refine ⟨g3', g2', g1', by rw [g5'], by rw [g4'], ?_, ?_, ?_, ?_, ?_⟩
     · intro x; rw [if_neg (fun h => h.2.1 hv1), g5']
     · intro x; rw [if_neg (fun h => h.1 hv1), g4']
     · intro x hx
       rcases (g6' x).1 hx with a | a
       · exact Or.inl a
       · exact Or.inr (Or.inl a)
+    · intro x hx; exact (g6' x).2 hx
+    · intro hne; exact absurd hv1 hne
   | some pv =>
     have hv1 : t1.val r.parent ≠ none := by rw [← hval, hv]; simp
     simp only
@@ -1105,7 +1109,7 @@ theorem register_fields (t1 : TM) (r : Rule) :
     have fp : t5.pumpingC = t3.pumpingC.setIfInBounds r.parent (t3.pumpingC.getD r.parent [] ++ [t1.rules.size]) := f.pumpingC
     have fu : t5.usingC.size = t3.usingC.size := f.usize
     refine ⟨by show t5.rules = _; rw [fr, g3'], by show t5.shifts = _; rw [fs, g2'], by show t5.value = _; rw [fv, g1'],
-      by show t5.pumpingC.size = _; rw [fp, Array.size_setIfInBounds, g5'], by show t5.usingC.size = _; rw [fu, g4'], ?_, ?_, ?_⟩
+      by show t5.pumpingC.size = _; rw [fp, Array.size_setIfInBounds, g5'], by show t5.usingC.size = _; rw [fu, g4'], ?_, ?_, ?_, ?_, ?_⟩
     · intro x
       show t5.pumpingC.getD x [] = _
       rw [fp, getD_setL, g5']
@@ -1143,6 +1147,15 @@ theorem register_fields (t1 : TM) (r : Rule) :
         rcases (g6' x).1 (Or.inr a') with c | c
         · exact Or.inl c
         · exact Or.inr (Or.inl c)
+    · intro x hx
+      have hq5 : t5.queue = t3.queue := f.queue
+      have hh5 : t5.holding = t3.holding := f.holding
+      rcases (g6' x).2 hx with a | a
+      · left; show x ∈ t5.queue ++ [t1.rules.size]; exact List.mem_append_left _ (by rw [hq5]; exact a)
+      · right; show x ∈ t5.holding; rw [hh5]; exact a
+    · intro _
+      show t1.rules.size ∈ t5.queue ++ [t1.rules.size]
+      exact List.mem_append_right _ (by simp)
 
 theorem nodup_map_of_inj {α β : Type} (f : α → β) (hf : ∀ a b, f a = f b → a = b) :
     ∀ (l : List α), l.Nodup → (l.map f).Nodup
